@@ -117,6 +117,7 @@ fn gen_program(seed: u64, id: u64, focus: &str, thorough: bool) -> Program {
     let mut rng = Rng::derive(seed ^ 0xC0C0, id);
     let family: &'static str = match focus {
         "C05" => *rng.pick(&["readwrite", "readwrite", "readwrite", "writers"]),
+        "C17" => "readwrite",
         "C06" => *rng.pick(&["readwrite", "writers", "readers-long"]),
         "C07" => *rng.pick(&["writers", "writers", "abort"]),
         "C08" => "orphans",
@@ -183,8 +184,18 @@ fn gen_program(seed: u64, id: u64, focus: &str, thorough: bool) -> Program {
                     _ => WOp::Checkpoint,
                 }
             };
+            let range_heavy = focus == "C17";
             let reader_op = |rng: &mut Rng| -> WOp {
                 let key = pick_key(rng);
+                if range_heavy && rng.chance(3, 4) {
+                    // ranged reads whose end lies beyond the shorter contents
+                    return if rng.chance(1, 2) {
+                        WOp::GetRange { key, start: 0, end: u64::MAX }
+                    } else {
+                        let start = rng.below(12);
+                        WOp::GetRange { key, start, end: start + 20 + rng.below(9000) }
+                    };
+                }
                 match rng.below(6) {
                     0 | 1 => WOp::Get { key },
                     2 => WOp::GetSize { key },
@@ -867,7 +878,7 @@ fn run_and_judge(prog: &Program, strategy: Strategy, serial: bool, focus: &str) 
                         match value_of_slice(&ctx, b, *start, *end) {
                             Some(v) => evs.push(LEvent::single(r.call, r.ret, Action::ExpectEq(v), format!("{d} = slice of c{}", v - 1))),
                             None => findings.push(Finding::new(
-                                &["C05"],
+                                &["C05", "C17"],
                                 "get_range returned bytes that are no slice of a committed value",
                                 "read under concurrency",
                                 format!("{d}: {} bytes", b.len()),
@@ -1047,6 +1058,7 @@ fn class_of_err(e: &str) -> String {
 fn focus_static(focus: &str) -> &'static str {
     match focus {
         "C02" => "C02",
+        "C17" => "C17",
         "C05" => "C05",
         "C06" => "C06",
         "C07" => "C07",
@@ -1086,7 +1098,7 @@ impl Explorer<'_> {
         let f = &j.feats;
         let nontrivial = match self.focus {
             "C04" => f.unlink_in_commit_window || f.two_writers_same_key,
-            "C05" => f.read_overlapped,
+            "C05" | "C17" => f.read_overlapped,
             "C08" => f.orphan_vs_commit,
             "C13" => f.abort_overlapped,
             "C15" => f.contention,
